@@ -100,6 +100,26 @@ func (P *Program) intercept(fn *ssa.Function) interceptFn {
 		P.icache.Store(fn, f)
 		return f
 	}
+	// participle builds its grammar by reflection: its functions are never interpreted. The only calls
+	// reached by encoded code are those of package initialisers (parser options); they yield zero values.
+	pk := fn.Pkg
+	if pk == nil && fn.Origin() != nil {
+		pk = fn.Origin().Pkg
+	}
+	if pk != nil && strings.HasPrefix(pk.Pkg.Path(), "github.com/alecthomas/participle/v2") {
+		f := interceptFn(func(ex *Exec, th *Thread, caller *frame, fn *ssa.Function, args []Value) Value {
+			res := fn.Signature.Results()
+			switch res.Len() {
+			case 0:
+				return nil
+			case 1:
+				return zero(res.At(0).Type())
+			}
+			return zero(res)
+		})
+		P.icache.Store(fn, f)
+		return f
+	}
 	P.icache.Store(fn, noIntercept{})
 	return nil
 }
